@@ -119,3 +119,38 @@ Proof.
   rewrite prefix_b_self_app. f_equal.
   cbn [length]. rewrite Nat.sub_succ, Nat.sub_0_r. apply replace_go_skip.
 Qed.
+
+(* ---------- split_ws of a space-joined list of clean tokens ---------- *)
+
+Lemma split_ws_go_free (a r acc : str) : ws_free a ->
+  split_ws_go (a ++ r) acc = split_ws_go r (rev a ++ acc).
+Proof.
+  intros H. revert acc. induction H as [|c a Hc _ IH]; intros acc; [reflexivity|].
+  cbn [app split_ws_go rev]. rewrite Hc, IH. now rewrite <- app_assoc.
+Qed.
+
+(* str.split() gives back non-empty whitespace-free tokens joined by single spaces *)
+Lemma split_ws_join (toks : list str) : Forall unit_ok toks -> split_ws (join [sp] toks) = toks.
+Proof.
+  unfold split_ws. induction 1 as [|a toks [Ha Hw] Hr IH]; [reflexivity|].
+  assert (Hrev : exists (c : char) (q : str), rev a = c :: q).
+  { destruct (rev a) as [|c q] eqn:E; [|now exists c, q].
+    apply (f_equal (@rev char)) in E. rewrite rev_involutive in E. now cbn in E. }
+  destruct Hrev as (c & q & Erev).
+  assert (Ea : rev (c :: q) = a) by (rewrite <- Erev; apply rev_involutive).
+  destruct toks as [|b toks].
+  - cbn [join]. rewrite <- (app_nil_r a) at 1. rewrite split_ws_go_free by exact Hw.
+    rewrite app_nil_r, Erev. cbn [split_ws_go]. now rewrite Ea.
+  - rewrite join_cons2, split_ws_go_free by exact Hw. rewrite app_nil_r, Erev.
+    cbn [app split_ws_go]. rewrite is_space_sp, Ea. f_equal. exact IH.
+Qed.
+
+(* a non-empty group of clean tokens concatenates to a clean token *)
+Lemma concat_unit_ok (g : list str) : g <> [] -> Forall unit_ok g -> unit_ok (concat g).
+Proof.
+  intros Hn F. split.
+  - destruct g as [|u g]; [congruence|]. inversion F as [|? ? [Hu _] _]; subst.
+    cbn [concat]. destruct u; [congruence|discriminate].
+  - induction F as [|u g [_ Hu] _ IH]; [constructor|]. cbn [concat]. apply Forall_app. split; [exact Hu|].
+    destruct g as [|v g]; [constructor|]. apply IH. discriminate.
+Qed.
